@@ -4,6 +4,7 @@ CONSTANTS
   MaxLen = 0
   Levels = {}
   Modes = {}
+  L1Variant = "fixed"
 INVARIANT Verdicts
 POSTCONDITION Accepted
 CHECK_DEADLOCK FALSE
